@@ -317,8 +317,12 @@ class H2Protocol:
                     return
                 await self._reset_abandoned_response(event.stream_id)
                 await self._close_stream(event.stream_id)
-                idle = len(self.streams) == 0 or all(
-                    stream.idle for stream in self.streams.values()
+                # A stream that still has something buffered to send
+                # (e.g. the close frame of a WebSocket and the end of
+                # its stream) is not idle yet.
+                idle = all(
+                    stream.idle and stream_id not in self.stream_buffers
+                    for stream_id, stream in self.streams.items()
                 )
                 if idle and self.context.terminated.is_set():
                     self.connection.close_connection()
